@@ -3,7 +3,8 @@ import Gossamer.Lib.Blake2b
 import Gossamer.Model.C05
 open Gossamer Gossamer.C05
 
-/- line:  `<ver><mode>|op;op;…`   (ver = 0 | 1; mode z | s | a = behaviour of short reads of the data
+/- line:  `<ver><mode>[h]|op;op;…`   (`h`: host-function run, `ver` observable ok | fail)
+   `<ver><mode>|op;op;…`   (ver = 0 | 1; mode z | s | a = behaviour of short reads of the data
    of a byte slice inside pkg/scale: zero-fill, strict, either; hex tokens, `-` = empty)
      put k v        Put on the current trie                                  → `-`
      gen ks         P := Generate(root(trie), ks, db); R := root(trie)        → `ok:<n>:<digest>` | `notfound`
@@ -18,6 +19,7 @@ def H : Bytes → Bytes := Blake2b.hash256
 
 structure St where
   ver : Ver
+  host : Bool             -- `ver` goes through ext_trie_blake2_256_verify_proof_version_1/2: observable ok | fail
   modes : List Bool       -- behaviour(s) of short reads inside pkg/scale assumed by the line (`true` = strict)
   t : Trie
   proof : List Bytes
@@ -144,22 +146,33 @@ def stepOp (s : St) (op : String) : St × String × String × String :=
   | ["ver", k, v] =>
     match ofHex? k, ofHex? v with
     | some kb, some vb =>
+      -- host run: i32 1 iff Verify returned nil; the _2 function is used when len(key)+len(value) is
+      -- odd and rejects an unknown state version (passed when len(value) % 5 = 4) before verifying
+      let badVersion := s.host && (kb.length + vb.length) % 2 == 1 && vb.length % 5 == 4
+      let obs (o : String) : String :=
+        if !s.host then o
+        else if badVersion then "fail"
+        else if o = "ok" || o = "panic" then o else "fail"
       let mos := s.modes.map fun strict => verifyP strict s.pairs s.root kb vb
       let mo := mos.headD .panic
       if mos.any (· ≠ mo) then same s "mode-dependent" else
       match s.refT with
-      | none => same s mo.str
+      | none => same s (obs mo.str)
       | some r =>
         let truth := Trie.lookup r (toNibs kb)
         if mo = .ok then
-          if truth = some vb then same s mo.str
+          if truth = some vb then same s (obs mo.str)
           else
             match truth with
             | none =>
-              (s, mo.str, "notfound", if Trie.emptyKeyHit r (toNibs kb) then "empty-remaining-key" else "!")
-            | some _ => (s, mo.str, "mismatch", if vb.isEmpty then "empty-claim" else "!")
-        else if s.honest.contains kb && truth = some vb then (s, mo.str, "ok", "!")
-        else same s mo.str
+              (s, obs mo.str, obs "notfound",
+                if obs mo.str = obs "notfound" then ""
+                else if Trie.emptyKeyHit r (toNibs kb) then "empty-remaining-key" else "!")
+            | some _ =>
+              (s, obs mo.str, obs "mismatch",
+                if obs mo.str = obs "mismatch" then "" else if vb.isEmpty then "empty-claim" else "!")
+        else if s.honest.contains kb && truth = some vb && !badVersion then (s, obs mo.str, "ok", "!")
+        else same s (obs mo.str)
     | _, _ => same s "bad-op"
   | _ => same s "bad-op"
 
@@ -173,6 +186,7 @@ def runOps (s : St) : List String → List (String × String × String)
 def step (line : String) : String :=
   match line.splitOn "|" with
   | [hd, body] =>
+    let (hd, host) := if hd.endsWith "h" then (hd.dropRight 1, true) else (hd, false)
     match hd.toList with
     | [v, m] =>
       let modes : List Bool :=
@@ -180,8 +194,8 @@ def step (line : String) : String :=
       if (v ≠ '0' ∧ v ≠ '1') || modes.isEmpty then "bad-op"
       else
         let ver := if v = '1' then Ver.v1 else Ver.v0
-        let s0 : St := { ver := ver, modes := modes, t := Trie.nil, proof := [], pairs := [], root := [],
-                         refT := none, honest := [] }
+        let s0 : St := { ver := ver, host := host, modes := modes, t := Trie.nil, proof := [], pairs := [],
+                         root := [], refT := none, honest := [] }
         let outs := runOps s0 (body.splitOn ";")
         let m := ";".intercalate (outs.map (·.1))
         let sp := ";".intercalate (outs.map (·.2.1))
